@@ -1,7 +1,7 @@
 """C07: index validation dominates every effect; the checks are String's predicates."""
 import re
 from facts import callee_name, strip_refs, expn_has
-from guards import guards_at, describe
+from guards import guards_at, describe, anchors
 
 PANICS = ("core::panicking::panic", "core::panicking::panic_fmt", "core::panicking::panic_display", "core::panicking::panic_explicit",
           "core::panicking::assert_failed", "core::panicking::panic_str_2015", "core::panicking::unreachable_display")
@@ -28,7 +28,7 @@ def effect_blocks(body):
     return out
 
 
-def explicit_panics(body, _depth=0):
+def explicit_panics(body, _depth=0, idx_param=None):
     out = []
     dbg = body.debug_only_blocks()
     for bb, t in body.calls():
@@ -37,12 +37,24 @@ def explicit_panics(body, _depth=0):
             if bb in dbg:
                 continue
             out.append(bb)
-        elif t.get("local_key") and t.get("target") is None and bb not in dbg and _depth < 3:
+        elif t.get("local_key") and bb not in dbg and _depth < 3 and (t.get("target") is None or (t["local_key"] not in anchors(body.facts) and body.facts.bodies.get(t["local_key"]) is not None and body.facts.bodies[t["local_key"]].j["kind"] != "closure"
+                                                                                                     and (_depth > 0 or idx_param is None or any(strip_refs(body.origin_operand(a)) == ("param", idx_param) for a in t["args"])))):
+            # an out-of-line `-> !` panic, or a private checking helper that is handed the index
+            # (a helper that only sees `self` - an invariant checker - does not reject indices)
             # a call to a local `-> !` function (a #[cold] out-of-line panic): an explicit panic here
             hb = body.facts.bodies.get(t["local_key"])
             if hb is not None and explicit_panics(hb, _depth + 1):
                 out.append(bb)
     return out
+
+
+def _boundary_fact_on(b, g, ip):
+    """the fact is `as_str(self).is_char_boundary(<index parameter>)` - judged on the fact's own
+    operands (the test may sit in a private assertion helper)"""
+    args = g[5] if len(g) > 5 else ()
+    if len(args) < 2:
+        return False
+    return describe(b, args[0]) == "repr::Repr::as_str(p1)" and describe(b, args[1]) == "p%d" % ip
 
 
 def rule_validate_before_mutate(ctx, rule="C07-order"):
@@ -54,7 +66,7 @@ def rule_validate_before_mutate(ctx, rule="C07-order"):
             continue
         effs = effect_blocks(b)
         ctx.need(rule, fn, "has-effects", bool(effs), "%s has no effect on its receiver (shape changed?)" % fn, how="%d effect site(s)" % len(effs))
-        pan = explicit_panics(b)
+        pan = explicit_panics(b, 0, ip)
         ctx.need(rule, fn, "has-index-panic", bool(pan), "%s has no explicit panic for bad indices" % fn, how="%d explicit panic site(s)" % len(pan))
         # (b) no explicit panic reachable after an effect
         for pb in pan:
@@ -67,10 +79,7 @@ def rule_validate_before_mutate(ctx, rule="C07-order"):
             cb = [g for g in gs if g[0] == "pred" and g[1] == "core::str::<impl str>::is_char_boundary" and g[3] is True]
             okb = False
             for g in cb:
-                ct = b.term(g[4])
-                recv = describe(b, b.origin_operand(ct["args"][0]))
-                idx = strip_refs(b.origin_operand(ct["args"][1]))
-                if recv == "repr::Repr::as_str(p1)" and idx == ("param", ip):
+                if _boundary_fact_on(b, g, ip):
                     okb = True
             ctx.ob(rule, fn, "boundary-check-dominates:" + _eord(b, eb, effs), okb, line=b.line(eb), how="as_str(self).is_char_boundary(idx) true-edge dominates %s" % name,
                    detail="%s is reachable without the check `self.as_str().is_char_boundary(idx)` having passed" % name)
@@ -96,8 +105,7 @@ def rule_validate_before_mutate(ctx, rule="C07-order"):
                     okb = False
                     for g in gs:
                         if g[0] == "pred" and g[1] == "core::str::<impl str>::is_char_boundary" and g[3] is True:
-                            ct = b.term(g[4])
-                            if describe(b, b.origin_operand(ct["args"][0])) == "repr::Repr::as_str(p1)" and strip_refs(b.origin_operand(ct["args"][1])) == ("param", ip):
+                            if _boundary_fact_on(b, g, ip):
                                 okb = True
                     if fn == "repr::Repr::truncate" and not okb:
                         okb = any(g[0] == "cmp2" and ((g[1] == "Ge" and strip_refs(g[2]) == ("param", ip) and describe(b, g[3]) == "repr::Repr::len(p1)") or (g[1] == "Le" and strip_refs(g[3]) == ("param", ip) and describe(b, g[2]) == "repr::Repr::len(p1)")) for g in gs)
@@ -158,6 +166,10 @@ def rule_wrappers(ctx, rule="C07-wrap"):
 def rule_unchecked_utf8(ctx, rule="C07-utf8"):
     F = ctx.F
     allowed = {"repr::Repr::as_str", "repr::Repr::as_str_mut", "repr::heap_buffer::HeapBuffer::as_str", "LeanString::from_utf8_unchecked"}
+    # functions already audited for taking an unchecked str sub-view (str::get_unchecked) state the
+    # same precondition when they spell it from_utf8_unchecked(from_raw_parts(..))
+    import r_config
+    allowed |= {fn for (fn, fam) in r_config.FAMILY_TABLE if fam == "utf8-view"}
     users = {}
     for path, b in F.bodies.items():
         for bb, t in b.calls():
